@@ -103,6 +103,12 @@ fn run_burst(case: &Case) -> Verdict {
                 let id = c.send_request(&m, p);
                 outstanding.push((id, m));
             }
+            "close" => {
+                if opened[d] {
+                    c.notify("textDocument/didClose", json!({"textDocument": {"uri": uris[d]}}));
+                    opened[d] = false;
+                }
+            }
             "pause" => std::thread::sleep(Duration::from_micros(op[1].as_u64().unwrap_or(100).min(20_000))),
             _ => {}
         }
@@ -159,7 +165,7 @@ pub struct RunOut {
     pub concurrent_steps: usize,
 }
 
-pub const HANDLERS: [&str; 4] = ["change-root", "change-included", "open-included", "resend-root"];
+pub const HANDLERS: [&str; 5] = ["change-root", "change-included", "open-included", "resend-root", "close-root"];
 
 /// Runs one scenario under the controlled scheduler following `choices` (then: keep running the
 /// same actor, else the first parked one).
@@ -228,6 +234,9 @@ pub fn run_schedule(handler: &str, requests: &[String], choices: &[String]) -> R
         "change-root" => c.did_change(&uris[0], 3, &doc_text(2, 2)),
         // the same text again (an editor re-sending an unchanged buffer)
         "resend-root" => c.did_change(&uris[0], 3, &doc_text(2, 1)),
+        "close-root" => {
+            c.notify("textDocument/didClose", json!({"textDocument": {"uri": uris[0]}}));
+        }
         "change-included" => c.did_open(&uris[1], "class Base { int b = 1; }\n"),
         _ => c.did_open(&uris[1], "class Base { int b = 0; }\nclass Other;\n"),
     }
@@ -320,7 +329,15 @@ fn run_sched_case(case: &Case) -> Verdict {
         Outcome::Completed => Verdict::Pass { nontrivial: out.concurrent_steps >= 1, labels: vec![] },
         Outcome::Deadlock(d) => Verdict::Fail(Failure::new("C08.deadlock", "C08.deadlock", format!("handler {handler} against requests {requests:?}, schedule {:?}: {d}", out.steps.iter().map(|s| s.chosen.clone()).collect::<Vec<_>>()))),
         Outcome::Diverged(_) => Verdict::Skip("schedule-diverged"),
-        Outcome::Inconclusive(_) => Verdict::Skip("inconclusive"),
+        Outcome::Inconclusive(why) => Verdict::Skip(match why.as_str() {
+            w if w.starts_with("did not settle") => "inconclusive:did-not-settle",
+            w if w.starts_with("notification was not picked up") => "inconclusive:notification-not-picked-up",
+            w if w.starts_with("no answer") => "inconclusive:no-answer-but-threads-active",
+            w if w.starts_with("more than") => "inconclusive:too-many-steps",
+            w if w.starts_with("N0") => "inconclusive:setup-notification",
+            w if w.starts_with("request") => "inconclusive:request-setup",
+            _ => "inconclusive:other",
+        }),
     }
 }
 
@@ -331,7 +348,14 @@ fn gen_burst(rng: &mut Rng) -> Case {
         match rng.below(10) {
             0..=3 => ops.push(json!(["change", rng.below(2)])),
             4 => ops.push(json!(["open", 1])),
-            5..=7 => ops.push(json!(["req", rng.below(2), REQUESTS[rng.below(REQUESTS.len())]])),
+            5..=6 => ops.push(json!(["req", rng.below(2), REQUESTS[rng.below(REQUESTS.len())]])),
+            7 => {
+                if rng.chance(1, 2) {
+                    ops.push(json!(["close", rng.below(2)]));
+                } else {
+                    ops.push(json!(["req", rng.below(2), REQUESTS[rng.below(REQUESTS.len())]]));
+                }
+            }
             _ => ops.push(json!(["pause", rng.below(3000)])),
         }
     }
@@ -344,7 +368,7 @@ impl Property for C08 {
         "C08"
     }
     fn rule(&self) -> String {
-        "the real Server (router + lifecycle + concurrency layers) in-process over an in-memory pipe. Controlled part: per scenario - handler under test in {change root, change included document, open included document, re-send identical text} against the still-parked diagnostics task of the previous notification and {no request | one of the 8 request kinds} - every interleaving of the schedule points (verif hooks) with at most 1 preemption (thorough: 3) is enumerated by stateless DFS; a released thread that does not reach its next point is classified running/blocked from /proc; deadlock = no actor can be released while some are blocked. Uncontrolled part: bursts of 3..9 operations (didOpen/didChange of root and included document back to back, each of the 8 request kinds, sub-3ms pauses) on documents of 1..300 classes, all 8x2 change-then-request pairs enumerated; every request and a final barrier request must be answered; a missing answer is a deadlock only with evidence (all server threads asleep with unchanged context-switch counters over 4 samples), else inconclusive. distinct = digest of the schedule / operation list; non-trivial = a step at which the handler and a task could both be released (controlled), >=2 document notifications in flight with >=1 request (bursts)".into()
+        "the real Server (router + lifecycle + concurrency layers) in-process over an in-memory pipe. Controlled part: per scenario - handler under test in {change root, change included document, open included document, re-send identical text, close root} against the still-parked diagnostics task of the previous notification and {no request | one of the 8 request kinds | thorough: every pair of request kinds} - every interleaving of the schedule points (verif hooks) with at most 1 preemption (thorough: 3) is enumerated by stateless DFS; a released thread that does not reach its next point is classified running/blocked from /proc; deadlock = no actor can be released while some are blocked. Uncontrolled part: bursts of 3..9 operations (didOpen/didChange of root and included document back to back, each of the 8 request kinds, sub-3ms pauses) on documents of 1..300 classes, all 8x2 change-then-request pairs enumerated; every request and a final barrier request must be answered; a missing answer is a deadlock only with evidence (all server threads asleep with unchanged context-switch counters over 4 samples), else inconclusive. distinct = digest of the schedule / operation list; non-trivial = a step at which the handler and a task could both be released (controlled), >=2 document notifications in flight with >=1 request (bursts)".into()
     }
     fn assumptions(&self) -> Vec<String> {
         vec!["OS scheduling decides the interleaving in the uncontrolled part; liveness is checked as 'answers within the patience window', blocked-thread evidence from /proc/self/task".into()]
@@ -368,10 +392,22 @@ impl Property for C08 {
                 // one chunk per scenario: handler x (no request | one of the 8 request kinds)
                 let bound = ctx.tier.pick(1usize, 3usize);
                 let max_per_scenario = ctx.tier.pick(60usize, 20000usize);
-                Family::new("controlled-schedules", (HANDLERS.len() * (REQUESTS.len() + 1)) as u64, move |chunk, _r, emit| {
+                // request settings: none, each single request; thorough: also every unordered pair
+                let mut settings: Vec<Vec<String>> = vec![vec![]];
+                for r in REQUESTS {
+                    settings.push(vec![r.to_string()]);
+                }
+                if ctx.tier == Tier::Thorough {
+                    for (i, a) in REQUESTS.iter().enumerate() {
+                        for b in &REQUESTS[i..] {
+                            settings.push(vec![a.to_string(), b.to_string()]);
+                        }
+                    }
+                }
+                let nset = settings.len();
+                Family::new("controlled-schedules", (HANDLERS.len() * nset) as u64, move |chunk, _r, emit| {
                     let handler = HANDLERS[chunk as usize % HANDLERS.len()];
-                    let ri = chunk as usize / HANDLERS.len();
-                    let requests: Vec<String> = if ri == 0 { vec![] } else { vec![REQUESTS[ri - 1].to_string()] };
+                    let requests: Vec<String> = settings[chunk as usize / HANDLERS.len()].clone();
                     let mut prefix: Vec<String> = Vec::new();
                     for _ in 0..max_per_scenario {
                         // exploration run (discovers the branching), then the case is evaluated on its own
